@@ -87,3 +87,29 @@ Definition c_south : sexa := mk_sexa true 0 30 0.
 (** +00:00:00.00001 *)
 Definition c_tiny : sexa := mk_sexa false 0 0 1000.
 
+
+(** * Pointing angles (azimuth, zenith): astropy [Angle]s held in any angular unit, SIGPROC keys in degrees *)
+Require Import QArith.
+Inductive aunit : Set := UDeg | UArcmin | UArcsec | UHour | URad.
+(** degrees per unit; [r] = degrees per radian (180/pi: irrational, so it stays a parameter) *)
+Definition deg_per (r : Q) (u : aunit) : Q :=
+  match u with UDeg => 1 | UArcmin => 1 # 60 | UArcsec => 1 # 3600 | UHour => 15 | URad => r end.
+Definition qangle : Set := (Q * aunit)%type.
+Definition deg_of (r : Q) (a : qangle) : Q := fst a * deg_per r (snd a).
+(** the number [to_sigproc] stores: converted to degrees, or the raw [.value] in the Angle's own unit *)
+Definition angle_written (in_deg : bool) (r : Q) (a : qangle) : Q := if in_deg then deg_of r a else fst a.
+Definition pick_attr (attr : Z) (zen az : qangle) : qangle := if (attr =? 0)%Z then zen else az.
+Definition za_start_written (r : Q) (zen az : qangle) : Q := angle_written za_start_in_deg r (pick_attr za_start_attr zen az).
+Definition az_start_written (r : Q) (zen az : qangle) : Q := angle_written az_start_in_deg r (pick_attr az_start_attr zen az).
+Definition pick_key (key : Z) (za az : Q) : Q := if (key =? 0)%Z then za else az.
+(** (zenith, azimuth) in degrees of the Header read back from the file written for (zen, az) *)
+Definition pointing_roundtrip (r : Q) (zen az : qangle) : Q * Q :=
+  let za := za_start_written r zen az in
+  let azs := az_start_written r zen az in
+  (pick_key zenith_read_key za azs, pick_key azimuth_read_key za azs).
+Definition pointing_ok : bool :=
+  za_start_in_deg && az_start_in_deg && (za_start_attr =? 0)%Z && (az_start_attr =? 1)%Z
+  && (zenith_read_key =? 0)%Z && (azimuth_read_key =? 1)%Z.
+(** witness: zenith 1 h = 15 deg, azimuth 2 h = 30 deg *)
+Definition zen_w : qangle := (1, UHour).
+Definition az_w : qangle := (2, UHour).
